@@ -328,34 +328,9 @@ Definition ratio_denominator (p : N) : (N * N) + N :=
     else if (q <? e) && negb (is_delim ch2) then inr q
     else inl (p, q).
 
-Definition read_number (start : N) : nres :=
-  let c0 := peek start in
-  let '(neg, p1) := if is_c c0 "-" then (true, adv start) else if is_c c0 "+" then (false, adv start)
-                    else (false, start) in
-  let ds0 := p1 in                                  (* digits_start *)
-  let c1 := peek p1 in
-  (* Clojure: NrDDD radix prefix *)
-  let radix_branch : option nres :=
-      if clj c && is_dig c1 then
-        let r_pos := plain_digits (fuel_of p1) p1 in
-        if (r_pos <? e) && (is_c (m r_pos) "r" || is_c (m r_pos) "R") && (p1 <? r_pos) then
-          let rv := fold_left (fun acc b => if (acc <=? 36)%Z then (acc * 10 + dval b)%Z else acc)
-                              (sub p1 r_pos) 0%Z in
-          if ((2 <=? rv) && (rv <=? 36))%Z then
-            let ds := r_pos + 1 in
-            if negb (in_radix rv (peek ds)) then Some (NErr ds)
-            else match digit_loop (fuel_of ds) (in_radix rv) true ds with
-                 | inr ec => Some (NErr ec)
-                 | inl p => Some (radix_tail start ds p rv neg false)
-                 end
-          else Some (NErr p1)
-        else None
-      else None in
-  match radix_branch with
-  | Some r => r
-  | None =>
-    (* sections shared by several entry points *)
-    let suffix_section (p : N) (hasdp hasexp : bool) : nres :=
+(* ---- sections of edn_read_number shared by several entry points (goto targets in the C code).
+   start = token start, ds0 = digits_start, neg = sign seen *)
+Definition suffix_section (start ds0 : N) (neg : bool) (p : N) (hasdp hasexp : bool) : nres :=
         (* p = digits_end *)
         let ch := peek p in
         if exp c && (is_c ch "N" || is_c ch "M" || is_c ch "/") && (ds0 <? p) && is_us (m (p - 1))
@@ -392,8 +367,8 @@ Definition read_number (start : N) : nres :=
         else match int_or_big ds0 p 10 neg with
              | inl v => finish v p
              | inr s => NUB s
-             end in
-    let exponent_section (p : N) (hasdp : bool) (from_goto : bool) : nres :=
+             end.
+Definition exponent_section (start ds0 : N) (neg : bool) (p : N) (hasdp : bool) (from_goto : bool) : nres :=
         (* p at 'e'/'E' *)
         if negb from_goto && exp c && (ds0 <? p) && is_us (m (p - 1)) then NErr p
         else
@@ -401,33 +376,60 @@ Definition read_number (start : N) : nres :=
           let ch := peek p2 in
           let p3 := if is_c ch "+" || is_c ch "-" then adv p2 else p2 in
           if negb (is_dig (peek p3)) then NErr p3
-          else suffix_section (frac_loop (fuel_of p3) p3) hasdp true in
-    let after_int_digits (p : N) (hasdp : bool) : nres :=
+          else suffix_section start ds0 neg (frac_loop (fuel_of p3) p3) hasdp true.
+Definition after_frac (start ds0 : N) (neg : bool) (q : N) (dp : bool) : nres :=
+            let ch2 := peek q in
+            if is_c ch2 "e" || is_c ch2 "E" then exponent_section start ds0 neg q dp false
+            else suffix_section start ds0 neg q dp false.
+Definition after_int_digits (start ds0 : N) (neg : bool) (p : N) (hasdp : bool) : nres :=
         (* p after integer digits; hasdp already true when entered at the '.' by goto *)
         let ch := peek p in
-        let after_frac (q : N) (dp : bool) : nres :=
-            let ch2 := peek q in
-            if is_c ch2 "e" || is_c ch2 "E" then exponent_section q dp false
-            else suffix_section q dp false in
         if is_c ch "." then
           let p2 := adv p in
           if exp c && is_us (peek p2) then NErr p2
-          else after_frac (frac_loop (fuel_of p2) p2) true
-        else after_frac p hasdp in
-    if is_c c1 "0" then
-      let p2 := adv p1 in
-      let zero_tail (p : N) : nres :=
+          else after_frac start ds0 neg (frac_loop (fuel_of p2) p2) true
+        else after_frac start ds0 neg p hasdp.
+Definition zero_tail (start ds0 : N) (neg : bool) (p : N) : nres :=
           let ch := peek p in
-          if is_c ch "." then after_int_digits p true
+          if is_c ch "." then after_int_digits start ds0 neg p true
           else if is_c ch "N" then finish (VBigInt neg 10 [("0"%byte)]) (adv p)
           else if is_c ch "M" then finish (VBigDec neg [("0"%byte)]) (adv p)
-          else if is_c ch "e" || is_c ch "E" then exponent_section p false true
+          else if is_c ch "e" || is_c ch "E" then exponent_section start ds0 neg p false true
           else if clj c && is_c ch "/" then
             match ratio_denominator (adv p) with
             | inr ec => NErr ec
             | inl (_, dend) => NVal (VInt 0) dend
             end
-          else finish (VInt 0) p in
+          else finish (VInt 0) p.
+
+Definition read_number (start : N) : nres :=
+  let c0 := peek start in
+  let '(neg, p1) := if is_c c0 "-" then (true, adv start) else if is_c c0 "+" then (false, adv start)
+                    else (false, start) in
+  let ds0 := p1 in                                  (* digits_start *)
+  let c1 := peek p1 in
+  (* Clojure: NrDDD radix prefix *)
+  let radix_branch : option nres :=
+      if clj c && is_dig c1 then
+        let r_pos := plain_digits (fuel_of p1) p1 in
+        if (r_pos <? e) && (is_c (m r_pos) "r" || is_c (m r_pos) "R") && (p1 <? r_pos) then
+          let rv := fold_left (fun acc b => if (acc <=? 36)%Z then (acc * 10 + dval b)%Z else acc)
+                              (sub p1 r_pos) 0%Z in
+          if ((2 <=? rv) && (rv <=? 36))%Z then
+            let ds := r_pos + 1 in
+            if negb (in_radix rv (peek ds)) then Some (NErr ds)
+            else match digit_loop (fuel_of ds) (in_radix rv) true ds with
+                 | inr ec => Some (NErr ec)
+                 | inl p => Some (radix_tail start ds p rv neg false)
+                 end
+          else Some (NErr p1)
+        else None
+      else None in
+  match radix_branch with
+  | Some r => r
+  | None =>
+    if is_c c1 "0" then
+      let p2 := adv p1 in
       if clj c then
         let p3 := skip_zeros (fuel_of p2) p2 in
         let ch := peek p3 in
@@ -445,13 +447,13 @@ Definition read_number (start : N) : nres :=
           | inl p => radix_tail start ds0 p 8 neg true
           end
         else if is_c ch "8" || is_c ch "9" then NErr p3
-        else zero_tail p3
+        else zero_tail start ds0 neg p3
       else if is_dig (peek p2) then NErr p2
-      else zero_tail p2
+      else zero_tail start ds0 neg p2
     else
       match digit_loop (fuel_of p1) is_dig true p1 with
       | inr ec => NErr ec
-      | inl p => after_int_digits p false
+      | inl p => after_int_digits start ds0 neg p false
       end
   end.
 End ReadNumber.
